@@ -28,7 +28,7 @@ Threads == Writers \cup Readers
 IsW(t) == t \in Writers
 Modes == {"block", "timed", "nowait"}
 
-VARIABLES p,        \* scenario: [cap |-> 0..MaxCap, ops |-> [Threads -> Seq(Modes)]]
+VARIABLES p,        \* scenario: [cap |-> 0..MaxCap, ops |-> [Threads -> Seq(Modes)], mayclose |-> BOOLEAN]
           q,        \* the deque: sequence of items <<writer, k>>
           mutex,    \* 0 or the holder
           waitNF, waitNE,   \* waiter lists of the two conditions (sequences of threads)
@@ -38,15 +38,17 @@ VARIABLES p,        \* scenario: [cap |-> 0..MaxCap, ops |-> [Threads -> Seq(Mod
           nxt,      \* per writer: number of the next item
           snap,     \* per thread: what the lock-free look at entry saw (only used when ~NotifyAlways)
           res,      \* per thread: sequence of results [ok |-> BOOLEAN, item |-> the item put / got, <<0, 0>> for a failure]
-          appended, popped   \* history: everything ever appended / popped, in order
+          appended, popped,  \* history: everything ever appended / popped, in order
+          closed    \* close() has been called (by the owner of the queue, any time)
 
-vars == <<p, q, mutex, waitNF, waitNE, sig, pc, k, gotit, nxt, snap, res, appended, popped>>
+vars == <<p, q, mutex, waitNF, waitNE, sig, pc, k, gotit, nxt, snap, res, appended, popped, closed>>
 
 Full == p.cap > 0 /\ Len(q) >= p.cap
 Empty == q = <<>>
 Mode(t) == p.ops[t][k[t]]
 Remove(s, t) == SelectSeq(s, LAMBDA x : x # t)
 Failed == [ok |-> FALSE, item |-> <<0, 0>>]
+Refused == [ok |-> FALSE, item |-> <<0, 1>>]     \* ValueError of a closed queue
 InSeq(s, t) == \E i \in 1..Len(s) : s[i] = t
 
 SeqsUpTo(n) == UNION {[1..m -> Modes] : m \in 1..n}
@@ -58,24 +60,39 @@ InitWith(par) ==
   /\ gotit = [t \in Threads |-> FALSE] /\ nxt = [t \in Writers |-> 1]
   /\ snap = [t \in Threads |-> FALSE]
   /\ res = [t \in Threads |-> <<>>]
-  /\ appended = <<>> /\ popped = <<>>
+  /\ appended = <<>> /\ popped = <<>> /\ closed = FALSE
 
 \* the documented restriction, for the sensitivity run: two writers, one reader, capacity 1
-InitTwoWriters == InitWith([cap |-> 1, ops |-> [t \in Threads |-> <<"block", "block">>]])
+InitTwoWriters == InitWith([cap |-> 1, ops |-> [t \in Threads |-> <<"block", "block">>], mayclose |-> FALSE])
 
-Init == \E cap \in 0..MaxCap, ops \in [Threads -> SeqsUpTo(MaxOps)] : InitWith([cap |-> cap, ops |-> ops])
+Init == \E cap \in 0..MaxCap, ops \in [Threads -> SeqsUpTo(MaxOps)], mc \in BOOLEAN :
+          InitWith([cap |-> cap, ops |-> ops, mayclose |-> mc])
 
 \* ---- one call of put / get -------------------------------------------------------------------------------------
-Begin(t) ==          \* the call starts (the `_closed` test; nothing shared is written)
+Start(t) ==          \* the call is made (nothing of the queue has been looked at yet)
   /\ pc[t] = "idle" /\ k[t] <= Len(p.ops[t])
-  /\ pc' = [pc EXCEPT ![t] = "lock"]
+  /\ pc' = [pc EXCEPT ![t] = "begin"]
+  /\ UNCHANGED <<p, q, mutex, waitNF, waitNE, sig, k, gotit, nxt, snap, res, appended, popped, closed>>
+
+Begin(t) ==          \* `if self._closed: raise ValueError` (a lock-free read), nothing shared is written
+  /\ pc[t] = "begin"
+  /\ IF closed
+       THEN /\ pc' = [pc EXCEPT ![t] = "ret"]                       \* ValueError: the queue is not touched
+            /\ res' = [res EXCEPT ![t] = Append(@, Refused)]
+       ELSE /\ pc' = [pc EXCEPT ![t] = "lock"] /\ UNCHANGED res
   /\ snap' = [snap EXCEPT ![t] = IF IsW(t) THEN Empty ELSE Full]
-  /\ UNCHANGED <<p, q, mutex, waitNF, waitNE, sig, k, gotit, nxt, res, appended, popped>>
+  /\ UNCHANGED <<p, q, mutex, waitNF, waitNE, sig, k, gotit, nxt, appended, popped, closed>>
+
+\* close(): sets the flag, nothing else - calls under way go on, and a thread blocked in wait() is NOT woken
+Close ==
+  /\ ~closed /\ p.mayclose
+  /\ closed' = TRUE
+  /\ UNCHANGED <<p, q, mutex, waitNF, waitNE, sig, pc, k, gotit, nxt, snap, res, appended, popped>>
 
 Lock(t) ==           \* `with self._not_full:` / `with self._not_empty:`
   /\ pc[t] = "lock" /\ mutex = 0
   /\ mutex' = t /\ pc' = [pc EXCEPT ![t] = "test"]
-  /\ UNCHANGED <<p, q, waitNF, waitNE, sig, k, gotit, nxt, snap, res, appended, popped>>
+  /\ UNCHANGED <<p, q, waitNF, waitNE, sig, k, gotit, nxt, snap, res, appended, popped, closed>>
 
 Test(t) ==           \* `if 0 < maxsize <= len(q):` / `if len(q) == 0:`
   /\ pc[t] = "test"
@@ -90,27 +107,27 @@ Test(t) ==           \* `if 0 < maxsize <= len(q):` / `if len(q) == 0:`
                      /\ IF IsW(t) THEN waitNF' = Append(waitNF, t) /\ UNCHANGED waitNE
                                   ELSE waitNE' = Append(waitNE, t) /\ UNCHANGED waitNF
                      /\ UNCHANGED res
-  /\ UNCHANGED <<p, q, mutex, sig, k, gotit, nxt, snap, appended, popped>>
+  /\ UNCHANGED <<p, q, mutex, sig, k, gotit, nxt, snap, appended, popped, closed>>
 
 WaitRelease(t) ==    \* wait(): _release_save
   /\ pc[t] = "wait"
   /\ mutex' = 0 /\ pc' = [pc EXCEPT ![t] = "waiting"]
-  /\ UNCHANGED <<p, q, waitNF, waitNE, sig, k, gotit, nxt, snap, res, appended, popped>>
+  /\ UNCHANGED <<p, q, waitNF, waitNE, sig, k, gotit, nxt, snap, res, appended, popped, closed>>
 
 Woken(t) ==          \* waiter.acquire() succeeded
   /\ pc[t] = "waiting" /\ t \in sig
   /\ sig' = sig \ {t} /\ gotit' = [gotit EXCEPT ![t] = TRUE] /\ pc' = [pc EXCEPT ![t] = "reacq"]
-  /\ UNCHANGED <<p, q, mutex, waitNF, waitNE, k, nxt, snap, res, appended, popped>>
+  /\ UNCHANGED <<p, q, mutex, waitNF, waitNE, k, nxt, snap, res, appended, popped, closed>>
 
 Timeout(t) ==        \* waiter.acquire(True, timeout) gave up
   /\ pc[t] = "waiting" /\ t \notin sig /\ Mode(t) = "timed"
   /\ gotit' = [gotit EXCEPT ![t] = FALSE] /\ pc' = [pc EXCEPT ![t] = "reacq"]
-  /\ UNCHANGED <<p, q, mutex, waitNF, waitNE, sig, k, nxt, snap, res, appended, popped>>
+  /\ UNCHANGED <<p, q, mutex, waitNF, waitNE, sig, k, nxt, snap, res, appended, popped, closed>>
 
 Reacq(t) ==          \* wait(): _acquire_restore
   /\ pc[t] = "reacq" /\ mutex = 0
   /\ mutex' = t /\ pc' = [pc EXCEPT ![t] = "cleanup"]
-  /\ UNCHANGED <<p, q, waitNF, waitNE, sig, k, gotit, nxt, snap, res, appended, popped>>
+  /\ UNCHANGED <<p, q, waitNF, waitNE, sig, k, gotit, nxt, snap, res, appended, popped, closed>>
 
 Cleanup(t) ==        \* wait() returns gotit; `if not wait(): raise Full/Empty` - NO re-test of the queue after a wake-up
   /\ pc[t] = "cleanup"
@@ -120,7 +137,7 @@ Cleanup(t) ==        \* wait() returns gotit; `if not wait(): raise Full/Empty` 
             /\ sig' = sig \ {t}                                     \* a notification that came after the time-out is swallowed
             /\ res' = [res EXCEPT ![t] = Append(@, Failed)]
             /\ pc' = [pc EXCEPT ![t] = "unlock"]
-  /\ UNCHANGED <<p, q, mutex, k, gotit, nxt, snap, appended, popped>>
+  /\ UNCHANGED <<p, q, mutex, k, gotit, nxt, snap, appended, popped, closed>>
 
 Mod(t) ==            \* `self._queue.append(item)` / `z = self._queue.popleft()`
   /\ pc[t] = "mod"
@@ -133,7 +150,7 @@ Mod(t) ==            \* `self._queue.append(item)` / `z = self._queue.popleft()`
             /\ res' = [res EXCEPT ![t] = Append(@, [ok |-> TRUE, item |-> Head(q)])]
             /\ UNCHANGED <<appended, nxt>>
   /\ pc' = [pc EXCEPT ![t] = "notify"]
-  /\ UNCHANGED <<p, mutex, waitNF, waitNE, sig, k, gotit, snap>>
+  /\ UNCHANGED <<p, mutex, waitNF, waitNE, sig, k, gotit, snap, closed>>
 
 Notify(t) ==         \* `self._not_empty.notify()` / `self._not_full.notify()`
   /\ pc[t] = "notify"
@@ -147,28 +164,28 @@ Notify(t) ==         \* `self._not_empty.notify()` / `self._not_full.notify()`
                    /\ UNCHANGED waitNE
        ELSE UNCHANGED <<waitNF, waitNE, sig>>
   /\ pc' = [pc EXCEPT ![t] = "unlock"]
-  /\ UNCHANGED <<p, q, mutex, k, gotit, nxt, snap, res, appended, popped>>
+  /\ UNCHANGED <<p, q, mutex, k, gotit, nxt, snap, res, appended, popped, closed>>
 
 Unlock(t) ==         \* leaving the `with`
   /\ pc[t] = "unlock"
   /\ mutex' = 0 /\ pc' = [pc EXCEPT ![t] = "ret"]
-  /\ UNCHANGED <<p, q, waitNF, waitNE, sig, k, gotit, nxt, snap, res, appended, popped>>
+  /\ UNCHANGED <<p, q, waitNF, waitNE, sig, k, gotit, nxt, snap, res, appended, popped, closed>>
 
 Ret(t) ==            \* the call returns / raises to its caller
   /\ pc[t] = "ret"
   /\ k' = [k EXCEPT ![t] = @ + 1]
   /\ pc' = [pc EXCEPT ![t] = IF k[t] + 1 > Len(p.ops[t]) THEN "done" ELSE "idle"]
-  /\ UNCHANGED <<p, q, mutex, waitNF, waitNE, sig, gotit, nxt, snap, res, appended, popped>>
+  /\ UNCHANGED <<p, q, mutex, waitNF, waitNE, sig, gotit, nxt, snap, res, appended, popped, closed>>
 
-Step(t) == Begin(t) \/ Lock(t) \/ Test(t) \/ WaitRelease(t) \/ Woken(t) \/ Timeout(t) \/ Reacq(t) \/ Cleanup(t)
+Step(t) == Start(t) \/ Begin(t) \/ Lock(t) \/ Test(t) \/ WaitRelease(t) \/ Woken(t) \/ Timeout(t) \/ Reacq(t) \/ Cleanup(t)
            \/ Mod(t) \/ Notify(t) \/ Unlock(t) \/ Ret(t)
-Idle == (\A t \in Threads : ~ENABLED Step(t)) /\ UNCHANGED vars
-Next == (\E t \in Threads : Step(t)) \/ Idle
+Idle == (\A t \in Threads : ~ENABLED Step(t)) /\ ~ENABLED Close /\ UNCHANGED vars
+Next == (\E t \in Threads : Step(t)) \/ Close \/ Idle
 Spec == Init /\ [][Next]_vars
 FairSpec == Spec /\ \A t \in Threads : WF_vars(Step(t))
 
 \* ---- properties ------------------------------------------------------------------------------------------------
-PCs == {"idle", "lock", "test", "wait", "waiting", "reacq", "cleanup", "mod", "notify", "unlock", "ret", "done"}
+PCs == {"idle", "begin", "lock", "test", "wait", "waiting", "reacq", "cleanup", "mod", "notify", "unlock", "ret", "done"}
 TypeOK == /\ mutex \in {0} \cup Threads /\ sig \subseteq Threads /\ \A t \in Threads : pc[t] \in PCs
           /\ Len(waitNF) <= NW /\ Len(waitNE) <= NR
 
@@ -183,6 +200,9 @@ NoGhostWaiter ==                                          \* the waiter lists ho
 WaitsOnlyWhenFull  == \A t \in Writers : (mutex = 0 /\ pc[t] = "waiting" /\ t \notin sig) => Full
 WaitsOnlyWhenEmpty == \A t \in Readers : (mutex = 0 /\ pc[t] = "waiting" /\ t \notin sig) => Empty
 
+\* a call that starts after close() is refused and leaves the queue alone (calls under way complete)
+ClosedRefuses == [][\A t \in Threads : (closed /\ pc[t] = "begin" /\ pc'[t] # "begin") => (pc'[t] = "ret" /\ q' = q)]_vars
+
 \* refinement of the atomic bounded FIFO the stream / server specifications use: the queue changes only by an append
 \* while there is room or by removing the head
 AtomicQ == [][ \/ (Len(q') = Len(q) + 1 /\ SubSeq(q', 1, Len(q)) = q /\ (p.cap = 0 \/ Len(q) < p.cap))
@@ -192,7 +212,7 @@ AtomicQ == [][ \/ (Len(q') = Len(q) + 1 /\ SubSeq(q', 1, Len(q)) = q /\ (p.cap =
 \* the other side does its part (checked for all-blocking programs of equal length)
 AllBlocking == \A t \in Threads : \A i \in 1..Len(p.ops[t]) : p.ops[t][i] = "block"
 Balanced == \A w \in Writers, r \in Readers : Len(p.ops[w]) * NW = Len(p.ops[r]) * NR
-AllDone == (AllBlocking /\ Balanced) => <>(\A t \in Threads : pc[t] = "done")
+AllDone == (AllBlocking /\ Balanced /\ ~p.mayclose) => <>(\A t \in Threads : pc[t] = "done")
 WriterProgress == \A t \in Writers : (pc[t] = "waiting" /\ ~Full) ~> (pc[t] # "waiting")
 ReaderProgress == \A t \in Readers : (pc[t] = "waiting" /\ ~Empty) ~> (pc[t] # "waiting")
 
@@ -200,6 +220,7 @@ ReaderProgress == \A t \in Readers : (pc[t] = "waiting" /\ ~Empty) ~> (pc[t] # "
 Trap_SwallowedNotify == ~(\E t \in Threads : pc[t] = "reacq" /\ ~gotit[t] /\ t \in sig)
 Trap_FailWithRoom == ~(\E t \in Writers : pc[t] = "ret" /\ Len(res[t]) > 0 /\ ~res[t][Len(res[t])].ok /\ ~Full
                                           /\ p.ops[t][k[t]] = "timed")
+Trap_RefusedWhilePeerBlocked == ~(closed /\ \E s, t \in Threads : pc[s] = "waiting" /\ s \notin sig /\ pc[t] = "done" /\ Len(res[t]) > 0 /\ res[t][Len(res[t])] = Refused)
 Trap_WriterWoken == ~(\E t \in Writers : pc[t] = "cleanup" /\ gotit[t])
 Trap_ReaderWoken == ~(\E t \in Readers : pc[t] = "cleanup" /\ gotit[t])
 =============================================================================
